@@ -390,8 +390,18 @@ fn drive(file: &[u8], cuts: &[usize]) -> Result<(Vec<(usize, Vec<u8>)>, &'static
                     // not panic (guarded), and if it claims success before the file is complete the bytes must
                     // already be the right ones
                     let mut sink = vec![];
-                    if img.reconstruct_jpeg(&mut sink).is_ok() {
-                        early_ok.push((w[1], sink));
+                    match img.reconstruct_jpeg(&mut sink) {
+                        Ok(_) => early_ok.push((w[1], sink)),
+                        Err(e) => {
+                            // the file is valid: while it is still arriving the only acceptable refusals are the
+                            // 'incomplete' ones; 'available' followed by any other error means the status promised
+                            // an attempt that the data received so far cannot support (e.g. an Exif / XMP box that
+                            // the reconstruction data announces is only partially there)
+                            let m = format!("{e}");
+                            if !m.contains("incomplete") {
+                                return Err(format!("available-but: status 'available' after {} of {} bytes, then reconstruct_jpeg: {m}", w[1], file.len()));
+                            }
+                        }
                     }
                 }
             }
